@@ -15,6 +15,63 @@ PROPS: dict[str, dict[str, Any]] = {
         "sidecars": ["contracts/c08.py"],
         "native_n": {"quick": 400, "thorough": 20000},
     },
+    "C09": {
+        "level": "exploration",
+        "sidecars": [],
+        "bounded": [{"script": "bounded/store_harness.py", "args": ["--mode", "c09"]}],
+        "rule": "bounded stand-in: stores of 3 traces (two under one workflow name with shapes drawn from all labelled rooted trees of <= 3 spans over 2 "
+                "types - thorough: plus a third of those of 4 spans - one under another name), sibling order and ids permuted, x batch sizes {1,2,3,1000} "
+                "x ingestion orders; random deeper trees with a duplicated leaf (multiplicity must count); the real find_unique_graphs on real sqlite; "
+                "oracle: canonical tree shapes computed from the abstract view. distinct = distinct (multiset of shapes, batch size); non-trivial = more "
+                "than one shape or two traces of one shape",
+        "assumptions": ["bounded, not proved: SQLAlchemy/sqlite statements are outside the verifier's reach; the oracle reads the store back with plain SQL"],
+    },
+    "C10": {
+        "level": "exploration",
+        "sidecars": [],
+        "bounded": [{"script": "bounded/store_harness.py", "args": ["--mode", "c10"]}],
+        "rule": "bounded stand-in, exhaustive in its bound: every stream of length <= 4 (thorough 5) over a pool of 6 spans (two traces; one id occurring "
+                "twice with different content; a child of the duplicated id; a span whose parent never arrives) x batch sizes {1,2,3,100}, plus every "
+                "split of every stream of length <= 3 (thorough 4) into two runs over one file-backed store; postcondition over the whole abstract view: "
+                "nodes == first occurrence per id, assoc == parent links of exactly those. distinct = distinct (id/type sequence, batch); non-trivial = "
+                "the stream contains a duplicate id (inside a run or across runs)",
+        "assumptions": ["bounded, not proved: SQLAlchemy/sqlite statements are outside the verifier's reach"],
+    },
+    "C11": {
+        "level": "exploration",
+        "sidecars": [],
+        "bounded": [{"script": "bounded/store_harness.py", "args": ["--mode", "c11"]}],
+        "rule": "bounded stand-in: stores built from 1-3 traces, each one of 17 variants (complete 1-2 span traces at 6 grid positions, a trace with "
+                "inconsistent workflow names, traces with a dangling parent, a trace straddling the whole window), all pairs exhaustively and triples "
+                "sampled (thorough: all triples), x time_buffer {0,1,2} grid units x two ingestion orders / batch sizes; whole-view postconditions of the "
+                "three cleaning operations in the order otel_to_pv applies them, WF preserved, ValueError iff the buffered window is empty, and the "
+                "differential clause (PV sequences of the kept traces == those of a store that never ingested the removed ones). non-trivial = some trace "
+                "is removed or renamed",
+        "assumptions": ["bounded, not proved: SQLAlchemy/sqlite statements are outside the verifier's reach"],
+    },
+    "C12": {
+        "level": "exploration",
+        "sidecars": [],
+        "bounded": [{"script": "bounded/store_harness.py", "args": ["--mode", "c12"]}],
+        "rule": "bounded stand-in: stores of 2-3 traces (chains and bushy trees of 1..7 (thorough 9) spans, trace sizes below / equal / above the batch "
+                "size and off batch boundaries) under 1-2 workflow names, natural and shuffled ingestion order x batch sizes {1,2,3,4,5,1000} x filters "
+                "{none, one name, per-name subsets}; the nested generators of the real stream_data are consumed in the order the real consumers do; "
+                "postcondition: names once, traces once, spans == the nodes rows of the trace, child links == association rows. non-trivial = more than "
+                "one trace",
+        "assumptions": ["bounded, not proved: itertools.groupby over a server-side cursor (escaping lazy generators) is outside the verifier's subset"],
+    },
+    "C15": {
+        "level": "exploration",
+        "sidecars": [],
+        "bounded": [{"script": "bounded/store_harness.py", "args": ["--mode", "c15"]}],
+        "rule": "bounded stand-in: every history of <= 3 (thorough 4) runs with flags {ingest, no-ingest} x {unique graphs on/off} over 4 small stores "
+                "(complete traces; a trace with a missing parent; a single span; a dangling-only trace) on one file-backed sqlite database (tmpfs), each "
+                "run a fresh SQLDataHolder doing exactly what otel_to_pv does (clean x3, optional find_unique_graphs, stream + sequence); each run must "
+                "terminate, leave the store well-formed and give the PV sequences / selected shapes of the first run with the same flags. In-process "
+                "emulation of separate runs (the temp table is removed from Base.metadata between runs as a new process would not have it). "
+                "non-trivial = more than one run",
+        "assumptions": ["bounded, not proved; runs are emulated in one process (fresh holder + engine per run on the same file)"],
+    },
     "C16": {
         "level": "proof",
         "sidecars": ["contracts/c16.py"],
